@@ -43,7 +43,7 @@ type symEntry struct {
 	Shape   string   `json:"shape,omitempty"` // types only: the ordered field types of a struct
 	// MembersBy holds the member list under a configuration where it differs from Members (build-tagged variants)
 	MembersBy map[string][]string `json:"members_by,omitempty"`
-	Configs []string `json:"configs,omitempty"`
+	Configs   []string            `json:"configs,omitempty"`
 }
 
 type symTable map[string]*symEntry // key: pkgpath|name or pkgpath|Owner.name
@@ -425,6 +425,41 @@ func detectRenames(ref symTable, cfg string, cur symTable, objs map[string]types
 			continue
 		}
 		recs = append(recs, renameRec{Key: mk, Old: mname, New: o.Name(), obj: o})
+	}
+	// a method that lost its name the way its siblings did: when some method m has been recognised as renamed to n,
+	// a missing T.m and an unknown T.n of the same signature are that rename too, whatever has become of the body
+	// (the body is what the rules are there to judge; it must not decide whether they get to see it)
+	family := map[string]string{} // old name -> new name
+	for _, r := range recs {
+		if e := ref[r.Key]; e != nil && e.Kind == "method" {
+			family[r.Old] = r.New
+		}
+	}
+	if len(family) > 0 {
+		for _, mk := range missing {
+			me := ref[mk]
+			mp, mowner, mname := splitKey(mk)
+			nn, ok := family[mname]
+			if !ok || me.Kind != "method" || mowner == "" {
+				continue
+			}
+			already := false
+			for _, r := range recs {
+				if r.Key == mk {
+					already = true
+				}
+			}
+			if already {
+				continue
+			}
+			fk := mp + "|" + mowner + "." + nn
+			fe := ccur[fk]
+			if fe == nil || fe.Kind != "method" || used[fk] || inRef(fk) || fe.Sig != me.Sig || cobj[fk] == nil {
+				continue
+			}
+			used[fk] = true
+			recs = append(recs, renameRec{Key: mk, Old: mname, New: nn, obj: cobj[fk]})
+		}
 	}
 	return recs
 }
